@@ -59,22 +59,66 @@ def check_optimum(ctx: Ctx) -> None:
     f = ctx.index.method(OH, "OptimizationHistory", "optimum")
     con = cname(OH, "OptimizationHistory", "optimum")
     cfg = cfg_of(f)
-    # feasible points unpack
-    fp = [s for s in stmts_of(f) if isinstance(s, ast.Assign) and dotted(s.value) == "self.feasible_points" and isinstance(s.targets[0], ast.Tuple) and len(s.targets[0].elts) == 2]
-    ctx.need(len(fp) == 1, "optimum: `feas_x, feas_f = self.feasible_points` not found")
-    feas_x, feas_f = (e.id for e in fp[0].targets[0].elts)
-    # the loop over the feasible records: `for i, rec in enumerate(feas_f)` (design = feas_x[i]) or
-    # `for x, rec in zip(feas_x, feas_f)` (design = x)
-    loops = [s for s in stmts_of(f) if isinstance(s, ast.For) and isinstance(s.iter, ast.Call) and isinstance(s.target, ast.Tuple) and len(s.target.elts) == 2 and ((dotted(s.iter.func) == "enumerate" and [dotted(a_) for a_ in s.iter.args] == [feas_f]) or (dotted(s.iter.func) == "zip" and [dotted(a_) for a_ in s.iter.args] == [feas_x, feas_f]))]
-    ctx.need(len(loops) == 1 and all(isinstance(e, ast.Name) for e in loops[0].target.elts), "optimum: loop over enumerate(feasible outputs) not found")
-    lp = loops[0]
-    i_var, rec_var = (e.id for e in lp.target.elts)
-    zipped = dotted(lp.iter.func) == "zip"
+    from gv.dataflow import SymValues
+
+    once = _Once(f)
+    sv = SymValues(f)
+    # the feasible points and their outputs: `feas_x, feas_f = self.feasible_points`, possibly through a local holding
+    # the pair, or element by element (`pair[0]`, `pair[1]`)
+    holders: dict[int, list[str]] = {0: [], 1: []}
+    for s in stmts_of(f):
+        if not (isinstance(s, ast.Assign) and len(s.targets) == 1):
+            continue
+        src = unparse(once.at(s.value, s))
+        t = s.targets[0]
+        if isinstance(t, (ast.Tuple, ast.List)) and len(t.elts) == 2 and all(isinstance(e, ast.Name) for e in t.elts) and src == "self.feasible_points":
+            holders[0].append(t.elts[0].id)
+            holders[1].append(t.elts[1].id)
+        elif isinstance(t, ast.Name) and src in ("self.feasible_points[0]", "self.feasible_points[1]"):
+            holders[int(src[-2])].append(t.id)
+    ctx.need(len(holders[0]) == 1 and len(holders[1]) == 1, "optimum: `feas_x, feas_f = self.feasible_points` not found")
+    feas_x, feas_f = holders[0][0], holders[1][0]
+    ctx.ob("4.1-record", con, once.stores.get(feas_x) == 1 and once.stores.get(feas_f) == 1, "the feasible points and their outputs are two parallel lists: neither may be re-bound (filtered, re-ordered) after they were taken from feasible_points, or positions no longer correspond", node=f, stmt="feasible points and outputs bound once")
+    # the loop over the feasible records: `for i, rec in enumerate(feas_f)` / `for i in range(len(feas_f))` (record
+    # feas_f[i], design feas_x[i]) or `for x, rec in zip(feas_x, feas_f)`; whatever the form, the record and the point
+    # of the current iteration are written feas_f[<i>] and feas_x[<i>] below
+    loops = []
+    for s in stmts_of(f):
+        if not isinstance(s, ast.For):
+            continue
+        form = _indexed_iter(s.iter, s.target)
+        if form and dotted(form[1]) == feas_f:
+            loops.append((s, form[0], {form[2]: f"{feas_f}[{form[0]}]"} if form[2] else {}))
+        elif isinstance(s.iter, ast.Call) and dotted(s.iter.func) == "zip" and not s.iter.keywords and [dotted(a_) for a_ in s.iter.args] == [feas_x, feas_f] and isinstance(s.target, ast.Tuple) and len(s.target.elts) == 2 and all(isinstance(e, ast.Name) for e in s.target.elts):
+            loops.append((s, "position", {s.target.elts[0].id: f"{feas_x}[position]", s.target.elts[1].id: f"{feas_f}[position]"}))
+    ctx.need(len(loops) == 1, "optimum: loop over enumerate(feasible outputs) not found")
+    lp, i_var, bind = loops[0]
+    bind = {k: ast.parse(v, mode="eval").body for k, v in bind.items()}
+    own_rec, own_x = f"{feas_f}[{i_var}]", f"{feas_x}[{i_var}]"
+
+    class Fold(ast.NodeTransformer):
+        """The two lists are named even where the unfolding went through them to ``self.feasible_points[k]``."""
+
+        def visit_Subscript(self, n):  # noqa: N802
+            k = {"self.feasible_points[0]": feas_x, "self.feasible_points[1]": feas_f}.get(unparse(n))
+            return ast.Name(id=k, ctx=ast.Load()) if k else self.generic_visit(n)
+
+    fold = Fold()
+
+    def canon(e: ast.AST) -> list[ast.AST]:
+        """Alternatives of an expression of the loop body, locals unfolded, the loop's record and point written in
+        their canonical form."""
+        return [_subst(fold.visit(a_), bind) for a_ in sv.exprs(e)]
 
     def own_point(e: ast.AST) -> bool:
-        if zipped:
-            return dotted(e) == i_var
-        return isinstance(e, ast.Subscript) and dotted(e.value) == feas_x and dotted(e.slice) == i_var
+        alts = canon(e)
+        return bool(alts) and all(unparse(a_) == own_x for a_ in alts)
+
+    def own_record_only(e: ast.AST) -> bool:
+        """Every alternative reads the outputs of the current iteration and no other record."""
+        alts = canon(e)
+        return bool(alts) and all(own_rec in unparse(a_) and feas_f not in names_in(ast.parse(unparse(a_).replace(own_rec, "REC"), mode="eval")) for a_ in alts)
+
     # the final return
     rets = [s for s in stmts_of(f) if isinstance(s, ast.Return) and isinstance(s.value, ast.Call) and last_attr(s.value) == "Solution"]
     ctx.need(len(rets) == 2, "optimum: the two Solution(...) returns were not found")
@@ -102,19 +146,29 @@ def check_optimum(ctx: Ctx) -> None:
             sel.append((n, cp))
     ctx.need(len(sel) == 1, "optimum: the selection test against the incumbent was not found")
     sel_n, (l, op, r) = sel[0]
-    cand = dotted(l) if dotted(r) == f_opt else dotted(r)
+    cand_e = l if dotted(r) == f_opt else r
+    cand = {unparse(a_) for a_ in canon(cand_e)}
     # ties are not decided by the property (no feasible point may be STRICTLY better): < and <= are both right
     ok = (dotted(r) == f_opt and op in (ast.Lt, ast.LtE)) or (dotted(l) == f_opt and op in (ast.Gt, ast.GtE))
     ctx.ob("4.2-min", con, ok, "the selection must keep the candidate when it is smaller than the incumbent (`candidate < incumbent` or `<=`): with > the worst feasible point is reported", node=cfg.ast[sel_n])
-    # candidate derived from the record's objective
-    cand_defs = [s for s in ast.walk(lp) if isinstance(s, ast.Assign) and any(isinstance(t, ast.Name) and t.id == cand for t in s.targets)]
-    ok = bool(cand_defs) and isinstance(cand_defs[0].value, ast.Call) and last_attr(cand_defs[0].value) == "get" and dotted(cand_defs[0].value.func.value) == rec_var
-    ctx.ob("4.1-record", con, ok, "the candidate objective must be read from the loop's own record", node=(cand_defs or [lp])[0])
+    # candidate derived from the record's objective: <own record>.get(objective name), possibly through norm(...) for a
+    # vector objective (not decided here), chosen by a conditional expression or by re-assignment
+
+    def reads(e: ast.AST) -> list[ast.Call | None]:
+        if isinstance(e, ast.IfExp):
+            return reads(e.body) + reads(e.orelse)
+        if isinstance(e, ast.Call) and last_attr(e) == "norm" and len(e.args) == 1 and not e.keywords:
+            return reads(e.args[0])
+        if isinstance(e, ast.Call) and isinstance(e.func, ast.Attribute) and e.func.attr == "get" and len(e.args) == 1 and not e.keywords:
+            return [e]
+        return [None]
+
+    got = [g_ for a_ in canon(cand_e) for g_ in reads(a_)]
+    ok = bool(got) and all(g_ is not None and unparse(g_.func.value) == own_rec for g_ in got)
+    ctx.ob("4.1-record", con, ok, "the candidate objective must be read from the loop's own record", node=cfg.ast[sel_n], stmt="candidate = <own record>.get(...)", slots={"candidate": sorted(cand)})
     if ok:
-        key = cand_defs[0].value.args[0]
-        kd = dotted(key)
-        key_ok = kd == "self.objective_name" or any(isinstance(s, ast.Assign) and dotted(s.targets[0]) == kd and dotted(s.value) == "self.objective_name" for s in stmts_of(f))
-        ctx.ob("4.1-record", con, key_ok, "the candidate must be the value recorded under the objective name", node=cand_defs[0], stmt="objective looked up by objective_name")
+        key_ok = all(unparse(g_.args[0]) == "self.objective_name" for g_ in got)
+        ctx.ob("4.1-record", con, key_ok, "the candidate must be the value recorded under the objective name", node=cfg.ast[sel_n], stmt="objective looked up by objective_name")
     # incumbent initialised to inf before the loop
     inits = [s for s in stmts_of(f) if isinstance(s, ast.Assign) and f_opt in _assigned_names(s) and not any(sub is s for sub in ast.walk(lp)) and cfg.reachable(cfg.node_of(s), cfg.node_of(lp))]
     ok = len(inits) == 1
@@ -132,15 +186,14 @@ def check_optimum(ctx: Ctx) -> None:
             ok = cfg.under_branch(cfg.node_of(s), sel_n, True)
             ctx.ob("4.1-same-record", con, ok, f"`{norm_stmt(s, 60)}` updates a reported field outside the selection branch: the reported fields would belong to different points of the history", node=s)
             # value provenance
-            names = names_in(s.value)
             tgt = _assigned_names(s) & reported
             if x_opt in tgt:
                 okv = own_point(s.value)
                 ctx.ob("4.1-same-record", con, okv, "the reported design must be the feasible point of the loop's own index", node=s, stmt=f"{x_opt} = the feasible point of the selected record")
             elif f_opt in tgt:
-                ctx.ob("4.1-same-record", con, dotted(s.value) == cand, "the reported objective must be the candidate just compared", node=s, stmt=f"{f_opt} = candidate")
+                ctx.ob("4.1-same-record", con, {unparse(a_) for a_ in canon(s.value)} == cand, "the reported objective must be the candidate just compared", node=s, stmt=f"{f_opt} = candidate")
             else:
-                okv = rec_var in names and not ({feas_f} & names)
+                okv = own_record_only(s.value)
                 ctx.ob("4.1-same-record", con, okv, "constraint values/gradients must be read from the loop's own record", node=s, stmt=f"{sorted(tgt)[0]}[...] from the selected record")
     # writes after the loop only post-process f_opt (scalar unwrapping)
     # 4.3 flag / branches
@@ -239,99 +292,169 @@ def check_feasible_points(ctx: Ctx) -> None:
     ctx.ob("4.3-filter", con, ok, "feasible_points must return (points, outputs) in this order", node=(rets or [f])[0])
 
 
-def check_tolerances(ctx: Ctx) -> None:
-    cls = ctx.index.cls(CO, "Constraints")
+_ABS = ("np_abs", "abs", "absolute", "fabs")
+_MIRROR = {ast.GtE: ast.LtE, ast.Gt: ast.Lt, ast.LtE: ast.GtE, ast.Lt: ast.Gt}
 
-    def tol_kind(e: ast.AST) -> str | None:
-        d = dotted(e) or ""
-        if d.endswith("tolerances.equality"):
-            return "eq"
-        if d.endswith("tolerances.inequality"):
-            return "ineq"
+
+def _tol_kind(e: ast.AST) -> str | None:
+    d = dotted(e) or ""
+    if d.endswith("tolerances.equality"):
+        return "eq"
+    if d.endswith("tolerances.inequality"):
+        return "ineq"
+    return None
+
+
+def _type_tests(func: ast.AST) -> dict[str, tuple[str, bool]]:
+    """The comparisons of a constraint type with ``ConstraintType.EQ`` / ``.INEQ`` anywhere in the function (the test of
+    an ``if``, of a conditional expression, the value of a boolean local): {text: (type named, is an equality test)}."""
+    out = {}
+    for n in walk_body(func):
+        cp = compare_parts(n)
+        if cp and cp[1] in (ast.Eq, ast.NotEq, ast.Is, ast.IsNot):
+            sides = [dotted(cp[0]) or "", dotted(cp[2]) or ""]
+            lab = "eq" if any(x.endswith("ConstraintType.EQ") for x in sides) else ("ineq" if any(x.endswith("ConstraintType.INEQ") for x in sides) else None)
+            if lab:
+                out[norm_stmt(n)] = (lab, cp[1] in (ast.Eq, ast.Is))
+    return out
+
+
+def _specialised(func: ast.AST, facts: dict[str, bool]) -> ast.AST:
+    """Copy of ``func`` in which the expressions whose text is a key of ``facts`` have the given truth value, the boolean
+    locals that became constants are propagated to their reads, and the branches not taken are folded away."""
+    from gv.shapes import specialise
+
+    g = specialise(func, facts)
+    for _ in range(4):
+        stores: dict[str, int] = {}
+        for n in walk_body(g):
+            if isinstance(n, ast.Name) and isinstance(n.ctx, (ast.Store, ast.Del)):
+                stores[n.id] = stores.get(n.id, 0) + 1
+        consts = {s_.targets[0].id: s_ for s_ in stmts_of(g) if isinstance(s_, ast.Assign) and len(s_.targets) == 1 and isinstance(s_.targets[0], ast.Name) and stores.get(s_.targets[0].id) == 1 and isinstance(s_.value, ast.Constant) and isinstance(s_.value.value, bool)}
+        if not consts:
+            break
+        gone = set(map(id, consts.values()))
+
+        class Drop(ast.NodeTransformer):
+            def visit_Assign(self, n):  # noqa: N802
+                return ast.copy_location(ast.Pass(), n) if id(n) in gone else n
+
+        g = specialise(Drop().visit(g), {k: v.value.value for k, v in consts.items()})
+    return g
+
+
+def _for_kind(func: ast.AST, kind: str):
+    """``func`` specialised for constraints of type ``kind`` ("eq"/"ineq"; there are exactly these two types): every
+    constraint-type test is replaced by its outcome, boolean locals that became constants are propagated, the
+    branches not taken disappear.  Returns (specialised function, its SymValues, its live statements) or None when the
+    function does not test the type."""
+    from gv.dataflow import SymValues
+
+    tests = _type_tests(func)
+    if not tests:
         return None
+    g = _specialised(func, {txt: (lab == kind) == is_eq for txt, (lab, is_eq) in tests.items()})
+    sv = SymValues(g)
+    cfg = sv.cfg
+    live = [s_ for s_ in stmts_of(g) if cfg.has(s_) and (cfg.node_of(s_) == cfg.entry or cfg.reachable(cfg.entry, cfg.node_of(s_)))]
+    return g, sv, live
 
-    def eq_branch(cfg, n) -> str | None:
-        """'eq' / 'ineq' / None according to the ConstraintType guard dominating node n."""
-        res = None
-        for t, v in branch_conditions(cfg, n):
-            if cfg.kind[t] != "test":
-                continue
-            cp = compare_parts(cfg.ast[t].test)
-            if not cp or cp[1] not in (ast.Eq, ast.NotEq):
-                continue
-            side = dotted(cp[2]) or ""
-            other = dotted(cp[0]) or ""
-            lab = "eq" if side.endswith(".EQ") or other.endswith(".EQ") else ("ineq" if side.endswith(".INEQ") or other.endswith(".INEQ") else None)
-            if lab is None:
-                continue
-            pos = v if cp[1] is ast.Eq else not v
-            res = lab if pos else ("ineq" if lab == "eq" else "eq")
-        return res
 
-    # is_constraint_satisfied
+def _tolerance_uses(sv, live) -> list[tuple[ast.AST, str, ast.AST, type | None, ast.AST]]:
+    """Every place where a value meets a tolerance in the live statements, locals unfolded: (statement, kind of the
+    tolerance, the value, comparison operator oriented ``value op tolerance`` or None for ``value - tolerance``, the
+    tolerance expression)."""
+    out = []
+    for s_ in live:
+        roots = [s_.test] if isinstance(s_, (ast.If, ast.While)) else ([s_.iter] if isinstance(s_, ast.For) else [s_])
+        for root in roots:
+            for n in _walk_local_nodes(root):
+                pos_part = isinstance(n, ast.Call) and last_attr(n) in ("maximum", "fmax", "max") and len(n.args) == 2 and not n.keywords
+                if not (isinstance(n, ast.Compare) or (isinstance(n, ast.BinOp) and isinstance(n.op, ast.Sub)) or pos_part):
+                    continue
+                for alt in sv.exprs(n):
+                    if pos_part:
+                        # max(value - tolerance, 0) keeps the components with value > tolerance
+                        d_ = [a_ for a_ in alt.args if isinstance(a_, ast.BinOp) and isinstance(a_.op, ast.Sub)] if isinstance(alt, ast.Call) and len(alt.args) == 2 else []
+                        z_ = [a_ for a_ in alt.args if const_value(a_, 1) == 0 and not isinstance(const_value(a_, 1), bool)] if d_ else []
+                        if len(d_) != 1 or len(z_) != 1:
+                            continue
+                        l, op, r = d_[0].left, ast.Gt, d_[0].right
+                    elif isinstance(alt, ast.Compare):
+                        cp = compare_parts(alt)
+                        if not cp:
+                            continue
+                        l, op, r = cp
+                        if _tol_kind(l) and not _tol_kind(r):
+                            l, op, r = r, _MIRROR.get(op, op), l
+                    elif isinstance(alt, ast.BinOp):
+                        l, op, r = alt.left, None, alt.right
+                    else:
+                        continue
+                    if _tol_kind(r):
+                        out.append((s_, _tol_kind(r), l, op, r))
+    return out
+
+
+def _walk_local_nodes(root: ast.AST):
+    """Nodes of a statement or expression, not entering the bodies of compound statements or nested scopes."""
+    if isinstance(root, (ast.If, ast.While, ast.For, ast.With, ast.Try, ast.FunctionDef, ast.ClassDef)):
+        return
+    yield from walk_body(ast.Module(body=[root], type_ignores=[])) if isinstance(root, ast.stmt) else ast.walk(root)
+
+
+def _has_abs(e: ast.AST) -> bool:
+    return any(isinstance(c, ast.Call) and last_attr(c) in _ABS for c in ast.walk(e))
+
+
+def check_tolerances(ctx: Ctx) -> None:
+    other = {"eq": "ineq", "ineq": "eq"}
+    # is_constraint_satisfied: the method is specialised for each constraint type (whatever the spelling of the type
+    # test: guard, else branch, conditional expression, boolean local) and the value returned is unfolded (locals
+    # replaced by their definitions), so that `return all(abs(v) <= tol.eq)` under a guard and
+    # `v = abs(v); tol = tol.eq ... return all(v <= tol)` are the same thing
     f = ctx.index.method(CO, "Constraints", "is_constraint_satisfied")
     con = cname(CO, "Constraints", "is_constraint_satisfied")
-    cfg = cfg_of(f)
-    rets = [s for s in stmts_of(f) if isinstance(s, ast.Return)]
-    ctx.need(rets, "is_constraint_satisfied: no return")
-    # the constraint-type tests of the method; the method is specialised on each of their outcomes and the value
-    # returned on that side is unfolded (locals replaced by their definitions), so that `return all(abs(v) <= tol.eq)`
-    # under a guard and `v = abs(v); tol = tol.eq ... return all(v <= tol)` are the same thing
-    type_tests = {}
-    for t in cfg.nodes(lambda n_: cfg.kind[n_] == "test"):
-        cp = compare_parts(cfg.ast[t].test)
-        if cp and cp[1] in (ast.Eq, ast.NotEq):
-            sides = [dotted(cp[0]) or "", dotted(cp[2]) or ""]
-            lab = "eq" if any(x.endswith(".EQ") for x in sides) else ("ineq" if any(x.endswith(".INEQ") for x in sides) else None)
-            if lab:
-                type_tests[norm_stmt(cfg.ast[t].test)] = (lab, cp[1] is ast.Eq)
-    ctx.need(len(type_tests) == 1, "is_constraint_satisfied: exactly one constraint-type test expected")
-    (ttxt, (lab, positive)), = type_tests.items()
-    seen = set()
-    for fact in (True, False):
-        kind = lab if fact == positive else ("ineq" if lab == "eq" else "eq")
-        seen.add(kind)
-        alts = []
-        for r in rets:
-            a = unfolded(f, r, {ttxt: fact}, get=lambda st: st.value)
-            if a:
-                alts.extend((r, x) for x in a)
-        ok = bool(alts)
+    ctx.need(_type_tests(f), "is_constraint_satisfied: no test of the constraint type found")
+    ctx.need([s for s in stmts_of(f) if isinstance(s, ast.Return)], "is_constraint_satisfied: no return")
+    for kind in ("eq", "ineq"):
+        g, sv, live = _for_kind(f, kind)
+        alts = [(r, x) for r in live if isinstance(r, ast.Return) and r.value is not None for x in sv.exprs(r.value)]
+        ok = bool(alts) and not any(isinstance(r, ast.Return) and r.value is None for r in live)
         for r, val in alts:
             cmps = [n for n in ast.walk(val) if isinstance(n, ast.Compare)]
-            good = len(cmps) == 1
+            good = len(cmps) == 1 and compare_parts(cmps[0]) is not None
             if good:
                 l, op, rr = compare_parts(cmps[0])
-                if tol_kind(l):
-                    l, op, rr = rr, {ast.GtE: ast.LtE, ast.Gt: ast.Lt, ast.LtE: ast.GtE, ast.Lt: ast.Gt}.get(op, op), l
-                good = tol_kind(rr) == kind and op is ast.LtE
-                has_abs = any(isinstance(c, ast.Call) and last_attr(c) in ("np_abs", "abs", "absolute", "fabs") for c in ast.walk(l))
-                good = good and (has_abs if kind == "eq" else not has_abs)
+                if _tol_kind(l):
+                    l, op, rr = rr, _MIRROR.get(op, op), l
+                good = _tol_kind(rr) == kind and op is ast.LtE
+                good = good and (_has_abs(l) if kind == "eq" else not _has_abs(l))
                 good = good and any(isinstance(c, ast.Call) and last_attr(c) in ("np_all", "all") for c in ast.walk(val))
             ok = ok and good
-        ctx.ob("4.4-routing", con, ok, f"the {kind} branch must be all(|value| <= tolerances.equality) resp. all(value <= tolerances.inequality)", node=(alts or [(f, None)])[0][0], stmt=f"{kind} constraints: satisfied iff within the {kind} tolerance", slots={"branch": kind})
-    ctx.ob("4.4-routing", con, seen == {"eq", "ineq"}, "both constraint types must be handled", node=f, stmt="both types handled")
-    # siblings with explicit tolerance variables
+        ctx.ob("4.4-routing", con, ok, f"the {kind} branch must be all(|value| <= tolerances.equality) resp. all(value <= tolerances.inequality)", node=(alts or [(f, None)])[0][0], stmt=f"{kind} constraints: satisfied iff within the {kind} tolerance", slots={"branch": kind, "returned": [unparse(v)[:160] for _, v in alts]})
+    labs = {lab for lab, _ in _type_tests(f).values()}
+    ctx.ob("4.4-routing", con, bool(labs), "both constraint types must be handled", node=f, stmt="both types handled")
+    # the siblings that measure the violation: for each constraint type, wherever a value meets a tolerance
+    # (`value > tolerance`, `value - tolerance`) the tolerance is the one of the type, the value is |value| for
+    # equality constraints and the plain value for inequality ones, and a component violates when value > tolerance
     for rel, clsn, meth in ((OH, "OptimizationHistory", "check_design_point_is_feasible"), (CO, "Constraints", "get_number_of_unsatisfied_constraints")):
-        g = ctx.index.method(rel, clsn, meth)
+        g0 = ctx.index.method(rel, clsn, meth)
         con2 = cname(rel, clsn, meth)
-        cfg2 = cfg_of(g)
-        asg = [s for s in stmts_of(g) if isinstance(s, ast.Assign) and tol_kind(s.value)]
-        ctx.need(len(asg) == 2, f"{meth}: the two tolerance selections were not found")
-        for s in asg:
-            n = cfg2.node_of(s)
-            kind = eq_branch(cfg2, n)
-            ctx.ob("4.4-routing", con2, kind == tol_kind(s.value), f"the {tol_kind(s.value)} tolerance is selected on the {kind} branch", node=s)
-        absn = [s for s in stmts_of(g) if isinstance(s, ast.Assign) and isinstance(s.value, ast.Call) and last_attr(s.value) in ("abs", "absolute", "np_abs") and dotted(s.targets[0]) == dotted(s.value.args[0])]
-        ok = len(absn) == 1 and eq_branch(cfg2, cfg2.node_of(absn[0])) == "eq"
-        ctx.ob("4.4-routing", con2, ok, "the absolute value must be applied to equality constraints only (and to them)", node=(absn or [g])[0], stmt="abs only for equality")
-        tolv = dotted(asg[0].targets[0])
-        cmps = [c for c in walk_body(g) if isinstance(c, ast.Compare) and tolv in names_in(c)]
-        ok = bool(cmps)
-        for c in cmps:
-            l, op, rr = compare_parts(c)
-            ok = ok and ((dotted(rr) == tolv and op is ast.Gt) or (dotted(l) == tolv and op is ast.Lt))
-        ctx.ob("4.4-routing", con2, ok, "a component violates its constraint when value > tolerance", node=(cmps or [g])[0], stmt="violation: value > tolerance")
+        ctx.need(_type_tests(g0), f"{meth}: no test of the constraint type found")
+        for kind in ("eq", "ineq"):
+            g, sv, live = _for_kind(g0, kind)
+            uses = _tolerance_uses(sv, live)
+            reads = [(s_, _tol_kind(n)) for s_ in live for n in (ast.walk(s_.test) if isinstance(s_, (ast.If, ast.While)) else _walk_local_nodes(s_)) if _tol_kind(n)]
+            anchor = (uses or [(g0,)])[0][0]
+            ok = bool(uses) and all(u[1] == kind for u in uses) and all(k == kind for _, k in reads)
+            ctx.ob("4.4-routing", con2, ok, f"for {kind} constraints every value must be compared with the {kind} tolerance, not with the {other[kind]} one", node=anchor, stmt=f"{kind} constraints: {kind} tolerance", slots={"uses": [unparse(ast.Compare(left=u[2], ops=[u[3]()], comparators=[u[4]]) if u[3] else ast.BinOp(left=u[2], op=ast.Sub(), right=u[4]))[:160] for u in uses]})
+            ok = bool(uses) and all(_has_abs(u[2]) == (kind == "eq") for u in uses)
+            ctx.ob("4.4-routing", con2, ok, "the absolute value must be applied to equality constraints only (and to them)", node=anchor, stmt=f"{kind} constraints: " + ("|value| against the tolerance" if kind == "eq" else "plain value against the tolerance"))
+            cmps = [u for u in uses if u[3] is not None]
+            ok = bool(cmps) and all(u[3] is ast.Gt for u in cmps)
+            ctx.ob("4.4-routing", con2, ok, "a component violates its constraint when value > tolerance", node=anchor, stmt=f"{kind} constraints: violation iff value > tolerance")
+    cls = ctx.index.cls(CO, "Constraints")
     # is_point_feasible
     g = ctx.index.method(CO, "Constraints", "is_point_feasible")
     con3 = cname(CO, "Constraints", "is_point_feasible")
@@ -352,95 +475,401 @@ def check_tolerances(ctx: Ctx) -> None:
 
 
 def check_result(ctx: Ctx) -> None:
+    import copy
+    import itertools
+
+    from gv.dataflow import SymValues
+
     f = ctx.index.method(OR, "OptimizationResult", "from_optimization_problem")
     con = cname(OR, "OptimizationResult", "from_optimization_problem")
-    cfg = cfg_of(f)
     sol = ctx.index.cls(OH, "OptimizationHistory.Solution")
     order = [s.target.id for s in sol.node.body if isinstance(s, ast.AnnAssign)]
-    # the locals that hold the fields of problem.optimum: by tuple unpacking (position -> field of the Solution
-    # named tuple) or by attribute (`optimum = problem.optimum; f_opt = optimum.objective`)
-    holders = {"problem.optimum"} | {t.id for s in stmts_of(f) if isinstance(s, ast.Assign) and dotted(s.value) == "problem.optimum" for t in s.targets if isinstance(t, ast.Name)}
-    bound = {}
-    for s in stmts_of(f):
-        if not isinstance(s, ast.Assign) or len(s.targets) != 1:
-            continue
-        t = s.targets[0]
-        if isinstance(t, ast.Tuple) and dotted(s.value) in holders and len(t.elts) == len(order):
-            for e_, fld in zip(t.elts, order):
-                bound.setdefault(fld, dotted(e_))
-        elif isinstance(t, ast.Name) and isinstance(s.value, ast.Attribute) and dotted(s.value.value) in holders and s.value.attr in order:
-            bound.setdefault(s.value.attr, t.id)
     wanted = ["objective", "design", "is_feasible", "constraints", "constraint_jacobian"]
-    ctx.need(all(w in bound for w in wanted), "from_optimization_problem: unpacking of problem.optimum not found")
-    f_opt, x_opt, is_feas, c_opt, c_grad = (bound[w] for w in wanted)
-    ctx.ob("4.1-result-fields", con, order == ["objective", "design", "is_feasible", "constraints", "constraint_jacobian"], "the Solution tuple must be (objective, design, is_feasible, constraints, constraint_jacobian), the order in which it is unpacked", node=sol.node, stmt="Solution field order", slots={"order": order})
-    negs = [s for s in stmts_of(f) if isinstance(s, ast.Assign) and dotted(s.targets[0]) == f_opt and isinstance(s.value, ast.UnaryOp) and isinstance(s.value.op, ast.USub) and dotted(s.value.operand) == f_opt]
-    ctx.need(len(negs) == 1, "from_optimization_problem: `f_opt = -f_opt` not found")
-    from gv.props.shared import literal_facts as _lf2
+    ctx.ob("4.1-result-fields", con, order == wanted, "the Solution tuple must be (objective, design, is_feasible, constraints, constraint_jacobian), the order in which it is unpacked", node=sol.node, stmt="Solution field order", slots={"order": order})
+    # the fields of problem.optimum are read by tuple unpacking (position -> field of the Solution named tuple), by
+    # attribute or by index, directly or through a local holding the optimum: the unpacking is first re-written field
+    # by field (`a, b, ... = opt` -> `a = opt.objective; b = opt.design; ...`), then every value is unfolded down to
+    # `problem.optimum.<field>`
+    g = copy.deepcopy(f)
+    once = _Once(g)
+    for parent in ast.walk(g):
+        for fld in ("body", "orelse", "finalbody"):
+            sts = getattr(parent, fld, None)
+            if not isinstance(sts, list):
+                continue
+            new = []
+            for s in sts:
+                t = s.targets[0] if isinstance(s, ast.Assign) and len(s.targets) == 1 else None
+                if isinstance(t, (ast.Tuple, ast.List)) and len(t.elts) == len(order) and all(isinstance(e, ast.Name) for e in t.elts) and unparse(once.at(s.value, s)) == "problem.optimum":
+                    new += [ast.copy_location(ast.Assign(targets=[ast.Name(id=e.id, ctx=ast.Store())], value=ast.Attribute(value=copy.deepcopy(s.value), attr=fld_, ctx=ast.Load())), s) for e, fld_ in zip(t.elts, order)]
+                else:
+                    new.append(s)
+            sts[:] = new
+    g = ast.fix_missing_locations(copy.deepcopy(g))  # a fresh tree: the analyses cache by identity
 
-    fs = _lf2(cfg, cfg.node_of(negs[0]))
-    neg = {k for k, v in fs.items() if v is False}
-    pos = sorted(k for k, v in fs.items() if v is True)
-    ok = neg == {"problem.minimize_objective", "problem.use_standardized_objective"}
-    ctx.ob("4.5-sign", con, ok, "the objective sign is restored iff the problem maximises and the original (non-standardised) objective is reported", node=negs[0], slots={"neg": sorted(str(x) for x in neg), "pos": pos})
-    oi = [s for s in stmts_of(f) if isinstance(s, ast.Assign) and dotted(s.targets[0]) == "optimum_index" and not isinstance(s.value, ast.Constant)]
-    ok = len(oi) == 1 and isinstance(oi[0].value, ast.BinOp) and isinstance(oi[0].value.op, ast.Sub) and const_value(oi[0].value.right) == 1 and isinstance(oi[0].value.left, ast.Call) and last_attr(oi[0].value.left) == "get_iteration" and dotted(oi[0].value.left.args[0]) == x_opt
-    ctx.ob("4.5-index", con, ok, "optimum_index must be database.get_iteration(x_opt) - 1 for the reported x_opt", node=(oi or [f])[0])
-    ctor = [s for s in stmts_of(f) if isinstance(s, ast.Return) and isinstance(s.value, ast.Call) and dotted(s.value.func) == "cls" and any(k.arg == "x_opt" for k in s.value.keywords)]
-    ctx.need(len(ctor) == 1, "from_optimization_problem: cls(...) construction not found")
-    kw = {k.arg: dotted(k.value) for k in ctor[0].value.keywords if k.arg}
-    want = {"x_opt": x_opt, "f_opt": f_opt, "is_feasible": is_feas, "constraint_values": c_opt, "constraints_grad": c_grad, "optimum_index": "optimum_index"}
-    bad = {k: kw.get(k) for k, v in want.items() if kw.get(k) != v}
-    ctx.ob("4.1-result-fields", con, not bad, f"result fields are not wired to the corresponding fields of the optimum: {bad}", node=ctor[0], stmt="cls(x_opt=, f_opt=, is_feasible=, constraint_values=, constraints_grad=, optimum_index=)")
+    class Fields(ast.NodeTransformer):
+        """problem.optimum[k] -> problem.optimum.<field k>"""
+
+        def visit_Subscript(self, n):  # noqa: N802
+            n = self.generic_visit(n)
+            k = const_value(n.slice, None)
+            if unparse(n.value) == "problem.optimum" and isinstance(k, int) and not isinstance(k, bool) and 0 <= k < len(order):
+                return ast.Attribute(value=n.value, attr=order[k], ctx=ast.Load())
+            return n
+
+    def field_of(e: ast.AST) -> str:
+        return unparse(Fields().visit(copy.deepcopy(e)))
+
+    opt = {w: f"problem.optimum.{w}" for w in wanted}
+    # the reported optimum is assumed to exist: the tests `<objective or design of the optimum> is (not) None` are decided
+    sv0 = SymValues(g)
+    facts0 = {}
+    for n in walk_body(g):
+        cp = compare_parts(n)
+        if cp and cp[1] in (ast.Is, ast.IsNot) and const_value(cp[2], 0) is None and sv0.cfg.has(n):
+            alts = {field_of(a_).lstrip("-") for a_ in sv0.exprs(cp[0])}
+            if alts and alts <= {opt["objective"], opt["design"]}:
+                facts0[norm_stmt(n)] = cp[1] is ast.IsNot
+    atoms = ["problem.minimize_objective", "problem.use_standardized_objective"]
+    bad: dict[str, object] = {}
+    table = {}
+    index_ok = True
+    n_ctor = set()
+    for combo in itertools.product((True, False), repeat=2):
+        gk = _specialised(g, {**facts0, **dict(zip(atoms, combo))})
+        sv = SymValues(gk)
+        oncek = _Once(gk)
+        cfgk = sv.cfg
+        ctors = []
+        for s in stmts_of(gk):
+            if not (isinstance(s, ast.Return) and isinstance(s.value, ast.Call) and dotted(s.value.func) == "cls" and cfgk.has(s) and cfgk.reachable(cfgk.entry, cfgk.node_of(s))):
+                continue
+            # keyword arguments, those passed through a `**{...}` literal (directly or by a local bound once) included
+            kw: dict[str, ast.AST] = {}
+            for k in s.value.keywords:
+                if k.arg is not None:
+                    kw[k.arg] = k.value
+                    continue
+                d = k.value
+                if isinstance(d, ast.Name) and d.id in oncek.defs:
+                    d = oncek.defs[d.id].value
+                if isinstance(d, ast.Dict) and all(isinstance(const_value(x), str) for x in d.keys):
+                    kw.update({const_value(x): v for x, v in zip(d.keys, d.values)})
+            if "x_opt" in kw:
+                ctors.append((s, kw))
+        n_ctor.add(len(ctors))
+        if len(ctors) != 1:
+            continue
+        ctor, kw = ctors[0]
+        got = {k: sorted({field_of(a_) for a_ in sv.exprs(v)}) for k, v in kw.items() if k in ("x_opt", "f_opt", "is_feasible", "constraint_values", "constraints_grad")}
+        want = {"x_opt": opt["design"], "is_feasible": opt["is_feasible"], "constraint_values": opt["constraints"], "constraints_grad": opt["constraint_jacobian"]}
+        for k, v in want.items():
+            if got.get(k) != [v]:
+                bad[k] = got.get(k)
+        fo = got.get("f_opt") or []
+        if len(fo) != 1 or fo[0].lstrip("-") != opt["objective"] or fo[0].startswith("--"):
+            bad["f_opt"] = fo
+        table[combo] = fo
+        oi = [Fields().visit(a_) for a_ in sv.exprs(kw["optimum_index"])] if "optimum_index" in kw else []
+        index_ok = index_ok and len(oi) == 1 and isinstance(oi[0], ast.BinOp) and isinstance(oi[0].op, ast.Sub) and const_value(oi[0].right) == 1 and isinstance(oi[0].left, ast.Call) and last_attr(oi[0].left) == "get_iteration" and len(oi[0].left.args) == 1 and unparse(oi[0].left.args[0]) == opt["design"]
+    ctx.need(n_ctor == {1}, "from_optimization_problem: cls(...) construction not found")
+    ctor = [s for s in stmts_of(f) if isinstance(s, ast.Return)][-1]
+    ctx.ob("4.1-result-fields", con, not bad, f"result fields are not wired to the corresponding fields of the optimum: {bad}", node=ctor, stmt="cls(x_opt=, f_opt=, is_feasible=, constraint_values=, constraints_grad=, optimum_index=)")
+    # decided over the four outcomes of (minimize_objective, use_standardized_objective), whatever the spelling of the test
+    ok = len(table) == 4 and all(fo == [("-" if (not mn and not sd) else "") + opt["objective"]] for (mn, sd), fo in table.items())
+    ctx.ob("4.5-sign", con, ok, "the objective sign is restored iff the problem maximises and the original (non-standardised) objective is reported", node=ctor, stmt="f_opt = -objective iff not minimize_objective and not use_standardized_objective", slots={"f_opt by (minimize, standardized)": {str(k): v for k, v in table.items()}})
+    ctx.ob("4.5-index", con, index_ok and len(table) == 4, "optimum_index must be database.get_iteration(x_opt) - 1 for the reported x_opt", node=ctor, stmt="optimum_index = database.get_iteration(<design of the optimum>) - 1")
+
+
+# ---------------------------------------------------------------------------
+# spelling-independent readings shared by the rules below
+
+
+def _indexed_iter(it: ast.AST, target: ast.AST):
+    """(position variable, iterated sequence, element variable or None) of ``for i, e in enumerate(S)`` and of
+    ``for i in range(len(S))`` (where the element is spelled ``S[i]``); None for any other iteration."""
+    if not (isinstance(it, ast.Call) and not it.keywords and len(it.args) == 1):
+        return None
+    if dotted(it.func) == "enumerate" and isinstance(target, (ast.Tuple, ast.List)) and len(target.elts) == 2 and all(isinstance(e, ast.Name) for e in target.elts):
+        return target.elts[0].id, it.args[0], target.elts[1].id
+    a = it.args[0]
+    if dotted(it.func) == "range" and isinstance(target, ast.Name) and isinstance(a, ast.Call) and dotted(a.func) == "len" and len(a.args) == 1 and not a.keywords:
+        return target.id, a.args[0], None
+    return None
+
+
+def _subst(e: ast.AST, bind: dict[str, ast.AST]) -> ast.AST:
+    """Copy of ``e`` with the loaded names of ``bind`` replaced by the bound expressions."""
+    import copy
+
+    class R(ast.NodeTransformer):
+        def visit_Name(self, n):  # noqa: N802
+            if isinstance(n.ctx, ast.Load) and n.id in bind:
+                return copy.deepcopy(bind[n.id])
+            return n
+
+    return ast.fix_missing_locations(R().visit(copy.deepcopy(e)))
+
+
+def _strip_not(e: ast.AST) -> tuple[bool, ast.AST]:
+    pol = True
+    while isinstance(e, ast.UnaryOp) and isinstance(e.op, ast.Not):
+        pol, e = not pol, e.operand
+    return pol, e
+
+
+def _enclosing_loops(func: ast.AST, node: ast.AST) -> list[ast.For]:
+    """The ``for`` loops of ``func`` whose body contains ``node``, outermost first."""
+    return [lp for lp in stmts_of(func) if isinstance(lp, ast.For) and lp is not node and any(sub is node for sub in ast.walk(lp))]
+
+
+class _Once:
+    """Unfolding of the locals of a function that have ONE definition (a plain ``name = expr`` that dominates the use,
+    the name being neither a parameter, nor a loop/with/walrus target, nor mutated through a method): such a local
+    stands for its defining expression wherever it is read.  Locals in ``keep`` and all others stay as names.  Unlike
+    ``SymValues`` this has no alternatives to enumerate, so it does not give up on long chains of locals."""
+
+    def __init__(self, func: ast.AST, keep=()):
+        from gv.dataflow import _MUTATORS
+
+        self.func, self.cfg, self.keep = func, cfg_of(func), set(keep)
+        stores: dict[str, int] = {}
+        a_ = func.args
+        for p_ in [*a_.posonlyargs, *a_.args, *a_.kwonlyargs, *([a_.vararg] if a_.vararg else []), *([a_.kwarg] if a_.kwarg else [])]:
+            stores[p_.arg] = 1
+        for n in walk_body(func):
+            if isinstance(n, ast.Name) and isinstance(n.ctx, (ast.Store, ast.Del)):
+                stores[n.id] = stores.get(n.id, 0) + 1
+            elif isinstance(n, (ast.FunctionDef, ast.ClassDef)):
+                stores[n.name] = stores.get(n.name, 0) + 2
+            elif isinstance(n, ast.Call) and isinstance(n.func, ast.Attribute) and n.func.attr in _MUTATORS and isinstance(n.func.value, ast.Name):
+                stores[n.func.value.id] = stores.get(n.func.value.id, 0) + 2
+            elif isinstance(n, (ast.ListComp, ast.SetComp, ast.DictComp, ast.GeneratorExp)):
+                for g in n.generators:
+                    for t in ast.walk(g.target):
+                        if isinstance(t, ast.Name):
+                            stores[t.id] = stores.get(t.id, 0) + 2  # a name also used as a comprehension variable is left alone
+        self.stores = stores
+        self.defs = {}
+        for s in stmts_of(func):
+            if isinstance(s, ast.Assign) and len(s.targets) == 1 and isinstance(s.targets[0], ast.Name) and stores.get(s.targets[0].id) == 1 and self.cfg.has(s):
+                self.defs[s.targets[0].id] = s
+
+    def at(self, e: ast.AST, stmt: ast.AST, _depth: int = 0) -> ast.AST:
+        """``e`` (read by the statement ``stmt``) with the single-definition locals replaced by their definitions."""
+        if _depth > 12 or not self.cfg.has(stmt):
+            return e
+        n_use = self.cfg.node_of(stmt)
+        bind = {}
+        for n in ast.walk(e):
+            if isinstance(n, ast.Name) and isinstance(n.ctx, ast.Load) and n.id in self.defs and n.id not in self.keep and n.id not in bind:
+                d = self.defs[n.id]
+                n_def = self.cfg.node_of(d)
+                if d is not stmt and n_def != n_use and self.cfg.dominates(n_def, n_use):
+                    bind[n.id] = self.at(d.value, d, _depth + 1)
+        return _subst(e, bind) if bind else e
+
+
+def _quantifiers(e: ast.AST, helpers: dict[str, ast.AST]) -> tuple[list[tuple[str, object]], ast.AST]:
+    """``all``/``any`` reductions wrapped around an expression, outermost first, with their axis, and the expression
+    they reduce: ``np_all(np_any(c, axis=1))``, ``np_any(c, 1).all()``, ``h(c)`` with ``h = lambda a: np_all(np_any(a, axis=1))``
+    (local lambda, applied lambda or single-return function given in ``helpers``) all read [("all", None), ("any", 1)], c."""
+    chain: list[tuple[str, object]] = []
+    for _ in range(12):
+        if not isinstance(e, ast.Call):
+            break
+        fn = e.func
+        lam = fn if isinstance(fn, ast.Lambda) else (helpers.get(fn.id) if isinstance(fn, ast.Name) else None)
+        if lam is not None:
+            a_ = lam.args
+            params = [p_.arg for p_ in a_.args]
+            if e.keywords or len(e.args) != len(params) or a_.vararg or a_.kwarg or a_.kwonlyargs or any(isinstance(x, ast.Starred) for x in e.args):
+                break
+            body = lam.body if isinstance(lam, ast.Lambda) else None
+            if body is None:
+                # a function whose body is straight-line: fresh locals, each assigned once, then one return
+                sts = [b for b in lam.body if not (isinstance(b, ast.Expr) and isinstance(b.value, ast.Constant))]
+                loc: dict[str, ast.AST] = {}
+                for b in sts[:-1]:
+                    if not (isinstance(b, ast.Assign) and len(b.targets) == 1 and isinstance(b.targets[0], ast.Name) and b.targets[0].id not in loc and b.targets[0].id not in params):
+                        sts = []
+                        break
+                    loc[b.targets[0].id] = _subst(b.value, loc)
+                if not sts or not isinstance(sts[-1], ast.Return) or sts[-1].value is None:
+                    break
+                body = _subst(sts[-1].value, loc)
+            e = _subst(body, dict(zip(params, e.args)))
+            continue
+        name = last_attr(e)
+        q = "all" if name in ("np_all", "all") else ("any" if name in ("np_any", "any") else None)
+        if q is None:
+            break
+        as_function = isinstance(fn, ast.Name) or (isinstance(fn, ast.Attribute) and dotted(fn.value) in ("np", "numpy"))
+        if as_function and e.args:
+            arg, rest = e.args[0], e.args[1:]
+        elif not as_function and isinstance(fn, ast.Attribute):
+            arg, rest = fn.value, e.args
+        else:
+            break
+        if len(rest) > 1 or any(k.arg != "axis" for k in e.keywords) or (rest and e.keywords):
+            break
+        ax = rest[0] if rest else (e.keywords[0].value if e.keywords else None)
+        if ax is None:
+            axis = None
+        elif isinstance(ax, ast.UnaryOp) and isinstance(ax.op, ast.USub) and isinstance(const_value(ax.operand), int):
+            axis = -const_value(ax.operand)
+        else:
+            axis = const_value(ax, "?")
+        chain.append((q, axis))
+        e = arg
+    return chain, e
+
+
+def _position_test(form, conds) -> tuple[str, bool] | None:
+    """(text of S, polarity) when the single condition ``conds`` = [(test, outcome)] is the truth of ``S[i]`` for the
+    indexed iteration ``form`` = (i, S, element variable or None)."""
+    pos, seq, elem = form
+    if len(conds) != 1:
+        return None
+    pol, atom = _strip_not(conds[0][0])
+    if not conds[0][1]:
+        pol = not pol
+    own = ast.Subscript(value=seq, slice=ast.Name(id=pos, ctx=ast.Load()), ctx=ast.Load())
+    if unparse(_subst(atom, {elem: own}) if elem else atom) != unparse(own):
+        return None
+    return unparse(seq), pol
+
+
+def _position_comp(e: ast.AST) -> tuple[str, bool] | None:
+    """``[i for i, p in enumerate(S) if p]`` -> (text of S, True); ``... if not p`` -> (text of S, False)."""
+    if not (isinstance(e, ast.ListComp) and len(e.generators) == 1):
+        return None
+    g = e.generators[0]
+    form = _indexed_iter(g.iter, g.target)
+    if form is None or dotted(e.elt) != form[0]:
+        return None
+    return _position_test(form, [(t, True) for t in g.ifs])
+
+
+def _position_lists(func: ast.AST) -> dict[str, tuple[str, bool]]:
+    """The lists that collect, in order, the positions ``i`` of a sequence ``S`` at which ``S[i]`` is true (resp. false):
+    {list: (text of S, polarity)}.  ``[i for i, p in enumerate(S) if p]``, the loop ``for i, p in enumerate(S): if p:
+    xs.append(i)`` (whatever else the loop does) and the ``range(len(S))`` forms are the same list."""
+    from gv.props.shared import accumulated_lists
+
+    cfg = cfg_of(func)
+    recs = accumulated_lists(func)
+    out: dict[str, tuple[str, bool]] = {}
+    for rec in recs:
+        if sum(1 for r in recs if r["name"] == rec["name"]) != 1:
+            continue
+        if isinstance(rec["node"], ast.Assign):
+            got = _position_comp(rec["node"].value)
+        else:
+            form = _indexed_iter(rec["iter"], rec["target"])
+            lps = _enclosing_loops(func, rec["node"])
+            if form is None or not lps or not cfg.has(rec["node"]):
+                continue
+            lp = lps[-1]
+            conds = [(cfg.ast[t].test, v) for t, v in branch_conditions(cfg, cfg.node_of(rec["node"])) if cfg.kind[t] == "test" and cfg.ast[t] is not lp and any(sub is cfg.ast[t] for sub in ast.walk(lp))]
+            # the list must start empty and collect the position itself
+            starts = [s for s in stmts_of(func) if isinstance(s, ast.Assign) and any(dotted(t) == rec["name"] for t in s.targets)]
+            if len(starts) != 1 or not (isinstance(starts[0].value, ast.List) and not starts[0].value.elts):
+                continue
+            if not (isinstance(rec["node"], ast.Call) and dotted(rec["node"].args[0]) == form[0]):
+                continue
+            got = _position_test(form, conds)
+        if got:
+            out[rec["name"]] = got
+    return out
 
 
 def check_pareto(ctx: Ctx) -> None:
     f = ctx.index.func(PU, "compute_pareto_optimal_points")
     con = cname(PU, None, "compute_pareto_optimal_points")
-    # the quantifier helper: a nested `def h(x): return <e>` or, equivalently, `h = lambda x: <e>` (the engine writes the
-    # former as the latter)
-    helper = [(s.name, [r.value for r in s.body if isinstance(r, ast.Return)][:1], s) for s in f.body if isinstance(s, ast.FunctionDef)]
-    helper += [(s.targets[0].id, [s.value.body], s) for s in f.body if isinstance(s, ast.Assign) and isinstance(s.value, ast.Lambda) and isinstance(s.targets[0], ast.Name)]
-    ok = len(helper) == 1 and bool(helper[0][1])
-    if ok:
-        rv_ = helper[0][1][0]
-        txt = unparse(rv_)
-        ok = isinstance(rv_, ast.Call) and last_attr(rv_) in ("np_all", "all") and isinstance(rv_.args[0], ast.Call) and last_attr(rv_.args[0]) in ("np_any", "any") and "axis=1" in txt
-    ctx.ob("4.6-quantifiers", con, ok, "a point is non-dominated iff every other point is worse in at least one objective: all over points of any over objectives (axis=1)", node=(helper[0][2] if helper else f))
-    hname = helper[0][0] if helper else "any_ax1_all"
-    loops = [s for s in stmts_of(f) if isinstance(s, ast.For)]
-    if len(loops) != 2:
-        ctx.ob("4.6-filter", con, False, "the Pareto filter must first go through all the points (infeasible ones are marked non-optimal, feasible ones collected), then compare the feasible ones: the first pass was not found in that form", node=(loops or [f])[0], stmt="filter pass then dominance pass")
+    cfg = cfg_of(f)
+    ctx.need(len(f.args.args) >= 2, "compute_pareto_optimal_points: (objective values, feasibility mask) parameters not found")
+    values, mask = f.args.args[0].arg, f.args.args[1].arg
+    rets = [s for s in stmts_of(f) if isinstance(s, ast.Return)]
+    ctx.need(len(rets) == 1 and isinstance(rets[0].value, ast.Name), "compute_pareto_optimal_points: the returned mask was not found")
+    result = rets[0].value.id
+    # helpers the verdict may go through: module-level single-return functions (local lambdas are unfolded with the locals)
+    helpers = dict(ctx.index.module(PU).functions)
+    helpers.update({s.name: s for s in f.body if isinstance(s, ast.FunctionDef)})
+    helpers.update({s.targets[0].id: s.value for s in f.body if isinstance(s, ast.Assign) and isinstance(s.value, ast.Lambda) and len(s.targets) == 1 and isinstance(s.targets[0], ast.Name)})
+    plists = _position_lists(f)
+    # the verdict of a feasible point: the store into the result mask, inside a loop, of a computed value
+    writes = [s for s in stmts_of(f) if isinstance(s, ast.Assign) and len(s.targets) == 1 and isinstance(s.targets[0], ast.Subscript) and dotted(s.targets[0].value) == result]
+    verdicts = [s for s in writes if not isinstance(s.value, ast.Constant) and _enclosing_loops(f, s)]
+    marks = [s for s in writes if isinstance(s.value, ast.Constant)]
+    ctx.need(len(verdicts) == 1, "compute_pareto_optimal_points: the store of a feasible point's verdict was not found")
+    verdict = verdicts[0]
+    main = _enclosing_loops(f, verdict)[-1]
+    form = _indexed_iter(main.iter, main.target)
+    if form is None or not isinstance(form[1], ast.Name):
+        ctx.ob("4.6-filter", con, False, "the dominance pass must go through the collected feasible points with their position (enumerate / range(len))", node=main, stmt="filter pass then dominance pass")
         return
-    filt, main = loops
-    obj_var = None
-    for s in ast.walk(main):
-        if isinstance(s, ast.Assign) and isinstance(s.value, ast.Subscript) and dotted(s.value.value) == f.args.args[0].arg:
-            obj_var = dotted(s.targets[0])
-    ctx.need(obj_var, "compute_pareto_optimal_points: the candidate's objective vector was not found")
-    cmps = [c for c in ast.walk(main) if isinstance(c, ast.Compare) and obj_var in names_in(c)]
-    ctx.need(len(cmps) == 2, "compute_pareto_optimal_points: the two dominance comparisons were not found")
+    iv, seq, elem = form
+    feas = seq.id
+    ok = plists.get(feas) == (mask, True)
+    ctx.ob("4.6-filter", con, ok, "the Pareto filter must first go through all the points (infeasible ones are marked non-optimal, feasible ones collected), then compare the feasible ones: the list the dominance pass iterates is not the list of the positions of the feasible points", node=main, stmt="filter pass then dominance pass")
+    own = ast.Subscript(value=ast.Name(id=feas, ctx=ast.Load()), slice=ast.Name(id=iv, ctx=ast.Load()), ctx=ast.Load())
+
+    once = _Once(f, keep={values, mask, result, feas})
+
+    def canon(e: ast.AST, stmt: ast.AST) -> ast.AST:
+        """``e`` with the single-definition locals unfolded and the loop element written ``feas[i]``."""
+        e = once.at(e, stmt)
+        return _subst(e, {elem: own}) if elem else e
+
+    filtered = {f"{values}[{feas}, :]", f"{values}[{feas}]"}
+    own_t = unparse(own)
+    candidates = {f"{values}[{own_t}]", f"{values}[{own_t}, :]"} | {f"{v}[{iv}]" for v in filtered} | {f"{v}[{iv}, :]" for v in filtered}
+    val = canon(verdict.value, verdict)
+    parts = val.values if isinstance(val, ast.BoolOp) else [val]
+    ok_q = isinstance(val, ast.BoolOp) and isinstance(val.op, ast.And) and len(parts) == 2
+    cmps = []
+    for p_ in parts:
+        chain, core = _quantifiers(p_, helpers)
+        ok_q = ok_q and len(chain) == 2 and chain[0][0] == "all" and chain[0][1] in (None, 0) and chain[1][0] == "any" and chain[1][1] in (1, -1) and isinstance(core, ast.Compare)
+        cmps += [core] if isinstance(core, ast.Compare) else [c for c in ast.walk(core) if isinstance(c, ast.Compare)]
+    ctx.ob("4.6-quantifiers", con, ok_q, "a point is non-dominated iff every other point is worse in at least one objective: all over points of any over objectives (axis=1), for the points before and for the points after", node=verdict, stmt="all over points of any over objectives", slots={"value": unparse(val)[:200]})
+    ok = unparse(canon(verdict.targets[0].slice, verdict)) == own_t
+    ctx.ob("4.6-quantifiers", con, ok, "the verdict of a feasible point is (before are worse) and (after are worse), stored at the point's own index", node=verdict)
+    ctx.need(len(cmps) == 2 and all(compare_parts(c) for c in cmps), "compute_pareto_optimal_points: the two dominance comparisons were not found")
+    sl = []
     for c in cmps:
         l, op, r = compare_parts(c)
-        ok = (dotted(r) == obj_var and op is ast.Gt) or (dotted(l) == obj_var and op is ast.Lt)
-        ctx.ob("4.6-polarity", con, ok, "others must be compared `others > candidate` (strictly worse somewhere): with < dominated points are reported, with >= duplicates dominate each other differently", node=c)
-        other = l if dotted(r) == obj_var else r
-        ok = isinstance(other, ast.Subscript) and "filtered" in (dotted(other.value) or "")
-        ctx.ob("4.6-feasible-only", con, ok, "dominance must be tested against feasible points only", node=c, stmt=f"{norm_stmt(c, 60)} against the filtered values")
-    sl = sorted(unparse(c.left.slice if dotted(c.comparators[0]) == obj_var else c.comparators[0].slice) for c in cmps if isinstance((c.left if dotted(c.comparators[0]) == obj_var else c.comparators[0]), ast.Subscript))
-    iv = main.target.elts[0].id if isinstance(main.target, ast.Tuple) else "i"
-    ctx.ob("4.6-others", con, sl == sorted([f":{iv}", f"{iv} + 1:"]), "the candidate must be compared with all other feasible points (before and after it), not with itself", node=main, slots={"slices": sl})
-    # infeasible points set False
-    cfgf = cfg_of(f)
-    sets = [s for s in ast.walk(filt) if isinstance(s, ast.Assign) and isinstance(s.targets[0], ast.Subscript) and const_value(s.value, 1) is False]
-    ok = len(sets) == 1
+        # the candidate is the side that is one row; the others are a slice of rows
+        if isinstance(l, ast.Subscript) and isinstance(l.slice, ast.Slice):
+            other, cand, op_ok = l, r, op is ast.Gt
+        else:
+            other, cand, op_ok = r, l, op is ast.Lt
+        ctx.ob("4.6-polarity", con, op_ok, "others must be compared `others > candidate` (strictly worse somewhere): with < dominated points are reported, with >= duplicates dominate each other differently", node=verdict, stmt=norm_stmt(c, 100))
+        ok = isinstance(other, ast.Subscript) and isinstance(other.slice, ast.Slice) and unparse(other.value) in filtered
+        ctx.ob("4.6-feasible-only", con, ok, "dominance must be tested against feasible points only", node=verdict, stmt=f"{norm_stmt(c, 60)} against the filtered values")
+        if isinstance(other, ast.Subscript):
+            sl.append(unparse(other.slice))
+        ctx.ob("4.6-others", con, unparse(cand) in candidates, "the candidate must be the objective vector of the feasible point whose verdict is stored", node=verdict, stmt=f"candidate of {norm_stmt(c, 60)}")
+    ctx.ob("4.6-others", con, sorted(sl) == sorted([f":{iv}", f"{iv} + 1:"]), "the candidate must be compared with all other feasible points (before and after it), not with itself", node=main, slots={"slices": sorted(sl)})
+    # infeasible points set False: at their own position in a pass over the mask, or all at once through the list of
+    # their positions
+    ok = len(marks) == 1 and marks[0].value.value is False
     if ok:
-        conds = [(t, v) for t, v in branch_conditions(cfgf, cfgf.node_of(sets[0])) if cfgf.kind[t] == "test"]
-        ok = len(conds) == 1 and ((conds[0][1] and isinstance(cfgf.ast[conds[0][0]].test, ast.UnaryOp)) or (not conds[0][1] and isinstance(cfgf.ast[conds[0][0]].test, ast.Name)))
-    ctx.ob("4.6-feasible-only", con, ok, "infeasible points must be marked non-optimal", node=(sets or [filt])[0], stmt="infeasible -> False")
-    res = [s for s in ast.walk(main) if isinstance(s, ast.Assign) and isinstance(s.targets[0], ast.Subscript) and isinstance(s.value, ast.BoolOp)]
-    ok = len(res) == 1 and isinstance(res[0].value.op, ast.And) and dotted(res[0].targets[0].slice) == (main.target.elts[1].id if isinstance(main.target, ast.Tuple) else None)
-    ctx.ob("4.6-quantifiers", con, ok, "the verdict of a feasible point is (before are worse) and (after are worse), stored at the point's own index", node=(res or [main])[0])
+        m = marks[0]
+        lps = _enclosing_loops(f, m)
+        if lps:
+            fm = _indexed_iter(lps[-1].iter, lps[-1].target)
+            conds = [(cfg.ast[t].test, v) for t, v in branch_conditions(cfg, cfg.node_of(m)) if cfg.kind[t] == "test" and cfg.ast[t] is not lps[-1]]
+            ok = fm is not None and unparse(fm[1]) == mask and dotted(m.targets[0].slice) == fm[0] and len(conds) == 1
+            if ok:
+                pol, atom = _strip_not(conds[0][0])
+                pol = pol if conds[0][1] else not pol
+                at = ast.Subscript(value=fm[1], slice=ast.Name(id=fm[0], ctx=ast.Load()), ctx=ast.Load())
+                ok = pol is False and unparse(_subst(atom, {fm[2]: at}) if fm[2] else atom) == unparse(at)
+        else:
+            ok = (plists.get(dotted(m.targets[0].slice) or "") or _position_comp(m.targets[0].slice)) == (mask, False) and cfg.dominates(cfg.node_of(m), cfg.node_of(rets[0]))
+    ctx.ob("4.6-feasible-only", con, ok, "infeasible points must be marked non-optimal", node=(marks or [main])[0], stmt="infeasible -> False")
 
 
 def run(ctx: Ctx) -> None:
